@@ -59,7 +59,11 @@ def neighbour(version):
 
 class Config(object):
     def __init__(self, k, m, s, start, with_neighbour, pkg=None,
-                 db='default', v1=False):
+                 db='default', v1=False, aborted=False):
+        self.aborted = aborted          # a first attempt is aborted by a
+        #                                 fault in the first statement that
+        #                                 touches the app's table, then
+        #                                 the hand-over is run again
         self.db = db                    # the database being upgraded
         self.v1 = v1                    # stored signature is a legacy
         #                                 (version 1, pickled) row
@@ -77,6 +81,8 @@ class Config(object):
             d['db'] = self.db
         if self.v1:
             d['v1'] = True
+        if self.aborted:
+            d['aborted'] = True
         return d
 
     def kind(self):
@@ -170,6 +176,23 @@ def run_config(cfg, driver, stats, add):
             with connections[db].cursor() as cur:
                 cur.execute('UPDATE django_project_version SET signature=%s '
                             'WHERE id=%s', [legacy, v.pk])
+    if cfg.aborted:
+        cfg.install_final()
+        B.reset_globals()
+        t0 = O.Tracer(db, fault_at=1, seq=[0], match=lambda q: (
+            '"vm_' in q or '"TEMP_TABLE"' in q) and O.is_effect(q))
+        r_ab = EB.upgrade(driver, tracer=t0, db=db)
+        stats['runs'] += 1
+        fired = any(st[3] is not None for st in t0.statements)
+        if r_ab.ok or not fired:
+            # nothing touched the app's tables (no attempt to abort), or
+            # the run fails before it gets there (judged without the
+            # aborted attempt)
+            stats['aborted_not_applicable'] = \
+                stats.get('aborted_not_applicable', 0) + 1
+            return
+        stats['aborted_attempts'] = stats.get('aborted_attempts', 0) + 1
+        shape += '|after-an-aborted-attempt'
     # ---- the hand-over run
     cfg.install_final()
     B.reset_globals()
@@ -307,12 +330,19 @@ def configs(tier):
                     if st != 'empty':
                         out.append((k, m, s, st, False, None, 'default',
                                     True))
+                    # a first hand-over attempt aborted by a fault, then
+                    # the real one
+                    if st != 'empty' and s == k + 1:
+                        out.append((k, m, s, st, False, None, 'default',
+                                    False, True))
     return out
 
 
 def work(task):
-    v1 = False
-    if len(task) == 9:
+    v1 = aborted = False
+    if len(task) == 10:
+        k, m, s, st, nb, pkg, db, v1, aborted, driver = task
+    elif len(task) == 9:
         k, m, s, st, nb, pkg, db, v1, driver = task
     elif len(task) == 8:
         k, m, s, st, nb, pkg, db, driver = task
@@ -333,7 +363,7 @@ def work(task):
             ent['count'] += 1
             if size < ent['size']:
                 ent.update(exemplar=replay, detail=detail, size=size)
-    cfg = Config(k, m, s, st, nb, pkg, db, v1)
+    cfg = Config(k, m, s, st, nb, pkg, db, v1, aborted)
     run_config(cfg, driver, stats, add)
     stats['samples'].append(dict(cfg.describe(), driver=driver))
     return stats, viol
@@ -357,6 +387,9 @@ def run(tier, seed, confirm=True):
         coll.merge(viol)
     coverage = {
         'states': total['configs'],
+        'aborted_first_attempts': total.get('aborted_attempts', 0),
+        'aborted_attempt_not_applicable':
+            total.get('aborted_not_applicable', 0),
         'transitions': total['runs'],
         'traces_validated_against_impl': total['configs'],
         'samples': total['samples'][:3],
@@ -387,7 +420,8 @@ def replay(path):
     r = doc['replay']
     s = len(r['mark_applied'])
     cfg = Config(r['k'], r['m'], s, r['start'], r['neighbour'],
-                 r.get('pkg'), r.get('db', 'default'), r.get('v1', False))
+                 r.get('pkg'), r.get('db', 'default'), r.get('v1', False),
+                 r.get('aborted', False))
     found = {}
 
     def add(fp, replay, detail):
